@@ -153,7 +153,8 @@ def budget_cases(ctx, world, clock, n):
             # the condition as it ARRIVES: an argument of the tracepoint, through build_trigger - also when its text begins or ends
             # with a string literal (the value of each of these texts is the value of f(), or false like it)
             from deep.api.tracepoint.trigger import build_trigger
-            cond_text = rng.choice(['f()', '"" or f()', "'' or f()", 'f() or ""', "f() or ''", ' f() ', '(f())'])
+            cond_text = rng.choice(['f()', '"" or f()', "'' or f()", 'f() or ""', "f() or ''", ' f() ', '(f())',
+                                    'F()', 'f() if "A" == "A" else None', 'f() or None', 'Fn()'])        # (capitals: names, literals, None)
             trigger = build_trigger("tp", "m.py", 7, {"condition": cond_text, "fire_count": count, "fire_period": period,
                                                      "frame_type": "no_frame"}, [], [])
             snaps_ = [a for a in trigger.actions if a.action_type == LocationAction.ActionType.Snapshot]
@@ -173,7 +174,7 @@ def budget_cases(ctx, world, clock, n):
             clock.now = t
             effects = lambda: len(world.push.snapshots) + len([1 for w_, _t, _i, _p in world.log if w_ in ("metric", "span-open")])
             before = effects()
-            _, exc = world.event(e2.mk_frame("/app/m.py", "g", 7, {"f": f}), "line")
+            _, exc = world.event(e2.mk_frame("/app/m.py", "g", 7, {"f": f, "F": f, "Fn": f}), "line")
             if exc is not None:
                 ctx.fail("the handler raised %r" % (exc,), j, tag="raised")
             obs.append(effects() > before)
